@@ -131,6 +131,29 @@ def gen_cases(tier, seed):
                     spec['plan']['gate'] = {'match': 's3:UploadPart', 'phase': rng.choice(['before', 'after']),
                                             'policy': rng.choice(['reverse', 'lowest_last', 'seeded'])}
                 cases.append(spec)
+    # one legacy S3Transfer object used from several threads: 2-3 upload_file calls overlapping in time
+    for i in range(20 if tier == 'quick' else 200):
+        T, C = rng.choice([(8, 8), (16, 8), (8, 4)])
+        cases.append({'front_end': 'legacy', 'concurrent': True, 'seed': rng.randrange(1 << 30),
+                      'config': dict(multipart_threshold=T, multipart_chunksize=C, max_concurrency=rng.choice([1, 2, 3])),
+                      'transfers': [{'kind': 'upload', 'size': rng.choice([T - 1, T, 2 * C + 1, 4 * C, 5 * C + 3])} for _ in range(rng.choice([2, 3]))],
+                      'plan': {'gate': {'match': rng.choice(['s3:UploadPart', 's3:']), 'phase': rng.choice(['before', 'after']),
+                                        'policy': rng.choice(['seeded', 'reverse'])}}})
+    # several transfers one after the other on ONE manager (each finished before the next is submitted): nothing may carry over
+    for i in range(30 if tier == 'quick' else 300):
+        T, C = rng.choice([(8, 8), (16, 8), (20, 8)])
+        ts = []
+        for j in range(rng.choice([3, 4])):
+            k = rng.choice(['upload', 'upload', 'copy'])
+            t = {'kind': k, 'size': rng.choice([0, 1, T - 1, T, 2 * C + 1, 4 * C, 5 * C + 3])}
+            if k == 'upload':
+                t['src'] = rng.choice(['path', 'seekable', 'nonseekable'])
+                if t['src'] == 'seekable':
+                    t['start'] = rng.choice([0, 5])
+            ts.append(t)
+        cases.append({'seed': rng.randrange(1 << 30), 'min_part': C, 'sequential': True, 'transfers': ts,
+                      'config': dict(multipart_threshold=T, multipart_chunksize=C, max_request_concurrency=rng.choice([1, 2, 3])),
+                      'body_read_sizes': rng.choice([[8192], [3]])})
     # explicit checksum algorithms (part checksums must be listed at complete)
     for algo in ('CRC32', 'SHA256', 'SHA1'):
         for src in ('path', 'seekable', 'nonseekable'):
